@@ -1,6 +1,8 @@
 package main
 
 import (
+	"go/constant"
+	"go/token"
 	"sort"
 
 	"golang.org/x/tools/go/ssa"
@@ -120,4 +122,203 @@ func (e *Engine) sccIndex() map[*ssa.Function]int {
 func (e *Engine) sameCycle(a, b *ssa.Function) bool {
 	m := e.sccIndex()
 	return a != nil && b != nil && m[a] != 0 && m[a] == m[b]
+}
+
+// ---------------------------------------------------------------------------
+// loops: a syntactic termination argument for counting loops (decided on the SSA, no solver)
+
+// countingLoop reports whether the loop headed by `header` is controlled by a comparison between an induction variable
+// that every back edge moves strictly towards the bound and a bound that does not change inside the loop.
+func countingLoop(header *ssa.BasicBlock, inLoop map[*ssa.BasicBlock]bool) (bool, string) {
+	if len(header.Instrs) == 0 {
+		return false, "empty header"
+	}
+	iff, ok := header.Instrs[len(header.Instrs)-1].(*ssa.If)
+	if !ok {
+		return false, "the loop header does not end in a condition (for { ... })"
+	}
+	cmp, ok := iff.Cond.(*ssa.BinOp)
+	if !ok {
+		return false, "the loop condition is not a comparison"
+	}
+	try := func(iv, bound ssa.Value, op token.Token) (bool, string) {
+		phi, ok := iv.(*ssa.Phi)
+		if !ok || phi.Block() != header {
+			return false, "the compared value is not a loop-carried variable"
+		}
+		if !loopInvariant(bound, inLoop, 0) {
+			return false, "the bound may change inside the loop"
+		}
+		lo, hi := 1<<30, -(1 << 30)
+		n := 0
+		for i, pred := range header.Preds {
+			if !inLoop[pred] {
+				continue
+			}
+			n++
+			l, h, ok := stepRange(phi.Edges[i], phi, 0)
+			if !ok {
+				return false, "a back edge changes the loop variable by something other than a constant step"
+			}
+			if l < lo {
+				lo = l
+			}
+			if h > hi {
+				hi = h
+			}
+		}
+		if n == 0 {
+			return false, "no back edge"
+		}
+		switch op {
+		case token.LSS, token.LEQ:
+			if lo >= 1 {
+				return true, ""
+			}
+			return false, "the loop variable does not strictly increase on every back edge"
+		case token.GTR, token.GEQ:
+			if hi <= -1 {
+				return true, ""
+			}
+			return false, "the loop variable does not strictly decrease on every back edge"
+		}
+		return false, "comparison " + op.String() + " gives no bound"
+	}
+	if ok, _ := try(cmp.X, cmp.Y, cmp.Op); ok {
+		return true, ""
+	}
+	flip := map[token.Token]token.Token{token.LSS: token.GTR, token.LEQ: token.GEQ, token.GTR: token.LSS, token.GEQ: token.LEQ}
+	if f, has := flip[cmp.Op]; has {
+		if ok, _ := try(cmp.Y, cmp.X, f); ok {
+			return true, ""
+		}
+	}
+	_, why := try(cmp.X, cmp.Y, cmp.Op)
+	return false, why
+}
+
+// stepRange: v == phi + d for some constant d in [lo, hi]
+func stepRange(v ssa.Value, phi *ssa.Phi, depth int) (int, int, bool) {
+	if v == phi {
+		return 0, 0, true
+	}
+	if depth > 8 {
+		return 0, 0, false
+	}
+	switch v := v.(type) {
+	case *ssa.BinOp:
+		c, ok := v.Y.(*ssa.Const)
+		if !ok || c.Value == nil || (v.Op != token.ADD && v.Op != token.SUB) {
+			return 0, 0, false
+		}
+		d, exact := constant.Int64Val(constant.ToInt(c.Value))
+		if !exact || d > 1<<20 || d < -(1<<20) {
+			return 0, 0, false
+		}
+		if v.Op == token.SUB {
+			d = -d
+		}
+		l, h, ok := stepRange(v.X, phi, depth+1)
+		return l + int(d), h + int(d), ok
+	case *ssa.Phi:
+		lo, hi := 1<<30, -(1 << 30)
+		for _, e := range v.Edges {
+			l, h, ok := stepRange(e, phi, depth+1)
+			if !ok {
+				return 0, 0, false
+			}
+			if l < lo {
+				lo = l
+			}
+			if h > hi {
+				hi = h
+			}
+		}
+		return lo, hi, true
+	}
+	return 0, 0, false
+}
+
+// pure observers of go/types objects: same receiver, same answer
+var pureObservers = map[string]bool{"NumFields": true, "NumMethods": true, "Len": true, "NumExplicitMethods": true, "NumEmbeddeds": true}
+
+func loopInvariant(v ssa.Value, inLoop map[*ssa.BasicBlock]bool, depth int) bool {
+	if depth > 8 {
+		return false
+	}
+	switch v := v.(type) {
+	case *ssa.Const, *ssa.Parameter, *ssa.FreeVar, *ssa.Global, *ssa.Function:
+		return true
+	case ssa.Instruction:
+		if !inLoop[v.Block()] {
+			return true
+		}
+		switch v := v.(type) {
+		case *ssa.BinOp:
+			return loopInvariant(v.X, inLoop, depth+1) && loopInvariant(v.Y, inLoop, depth+1)
+		case *ssa.Field:
+			return loopInvariant(v.X, inLoop, depth+1)
+		case *ssa.Convert:
+			return loopInvariant(v.X, inLoop, depth+1)
+		case *ssa.ChangeType:
+			return loopInvariant(v.X, inLoop, depth+1)
+		case *ssa.UnOp:
+			// a load from a local that is written once, before the loop (a spilled parameter or local struct)
+			if v.Op == token.MUL {
+				root := v.X
+				for {
+					if fa, ok := root.(*ssa.FieldAddr); ok {
+						root = fa.X
+						continue
+					}
+					break
+				}
+				if al, ok := root.(*ssa.Alloc); ok {
+					return allocWrittenOnlyBefore(al, inLoop)
+				}
+			}
+		case *ssa.Call:
+			cm := v.Common()
+			if b, ok := cm.Value.(*ssa.Builtin); ok && (b.Name() == "len" || b.Name() == "cap") && len(cm.Args) == 1 {
+				return loopInvariant(cm.Args[0], inLoop, depth+1)
+			}
+			if f := cm.StaticCallee(); f != nil && f.Pkg != nil && f.Pkg.Pkg.Path() == "go/types" && pureObservers[f.Name()] && len(cm.Args) == 1 {
+				return loopInvariant(cm.Args[0], inLoop, depth+1)
+			}
+		}
+	}
+	return false
+}
+
+// allocWrittenOnlyBefore: the local is stored to only outside the loop and its address (or a field's address) is used for
+// loads only - it never escapes to a call, a closure or another store
+func allocWrittenOnlyBefore(al *ssa.Alloc, inLoop map[*ssa.BasicBlock]bool) bool {
+	var onlyLoads func(addr ssa.Value, top bool) bool
+	onlyLoads = func(addr ssa.Value, top bool) bool {
+		refs := addr.Referrers()
+		if refs == nil {
+			return false
+		}
+		for _, r := range *refs {
+			switch r := r.(type) {
+			case *ssa.UnOp:
+				if r.Op != token.MUL {
+					return false
+				}
+			case *ssa.FieldAddr:
+				if !onlyLoads(r, false) {
+					return false
+				}
+			case *ssa.Store:
+				if r.Addr != addr || !top || inLoop[r.Block()] {
+					return false
+				}
+			case *ssa.DebugRef:
+			default:
+				return false
+			}
+		}
+		return true
+	}
+	return onlyLoads(al, true)
 }
